@@ -815,7 +815,8 @@ class CompressedBytesColumn(Column):
 
         def __iter__(self):
             for v in VarBytesColumn.Reader.__iter__(self):
-                yield self._decompress(v)
+                # Rows without a value are stored as empty strings
+                yield self._decompress(v) if v else v
 
         def load(self):
             return list(self)
